@@ -22,6 +22,53 @@ def load_known():
     return j
 
 
+def apply_private_deps(ck, prog):
+    """obligations that lean on the NAME of a private item (table lint/private_deps.json, produced by lint/privdeps.py) are undecided,
+    not violated, when that name no longer occurs in the program: a behaviour-preserving refactoring may rename or move private items.
+    While every name of the table is present this does nothing."""
+    import fnmatch
+    p = os.path.join(os.path.dirname(os.path.abspath(__file__)), "private_deps.json")
+    try:
+        with open(p) as f:
+            whole = json.load(f)
+            table = whole["deps"]
+            sites = whole.get("sites", {})
+    except (OSError, ValueError, KeyError):
+        return []
+    have = set(prog.bodies)
+    for path, adt in prog.adts.items():
+        for v in adt.get("variants", []):
+            for fl in v.get("fields", []):
+                have.add("%s.%s" % (path, fl.get("name", "")))
+    present = set()
+    for b in prog.bodies.values():
+        for seg in re.split(r"::|<|>|,| |'", b.id):
+            if seg:
+                present.add(seg)
+    for path, adt in prog.adts.items():
+        present.add(path.rsplit("::", 1)[-1])
+        for v in adt.get("variants", []):
+            for fl in v.get("fields", []):
+                present.add(fl.get("name", ""))
+    missing = sorted(n for n in table if n not in present or any(st not in have for st in sites.get(n, [])))
+    demoted = []
+    for n in missing:
+        pats = table[n].get(ck.pid, [])
+        if not pats:
+            continue
+        # granularity: the RULES (first segment of the key) that were seen to depend on the name.  A refactoring that renames a
+        # private item usually restructures around it as well, so the instances that fail need not be the ones the plain rename made fail
+        rules = {pt.split("/", 1)[0] for pt in pats}
+        for o in ck.obligations:
+            if o["ok"] is False and (o["rule"] in rules or any(fnmatch.fnmatchcase(o["key"], pt) for pt in pats)):
+                o["ok"] = None
+                o["msg"] = "[the private item `%s` this rule instance is phrased over is no longer in the program (renamed / moved / inlined?): not decided] %s" % (n, o["msg"])
+                demoted.append((n, o["key"]))
+    if missing:
+        ck.note("private identifiers of the dependence table that are absent from this tree: %s" % ", ".join(missing))
+    return demoted
+
+
 class Check:
     def __init__(self, pid, tier="quick", seed=0, claim="", not_decided="", write_evidence=True):
         self.pid = pid
@@ -56,15 +103,25 @@ class Check:
     def undecided(self, rule, key, msg, where=None):
         return self.ob(rule, key, None, msg, where)
 
-    def anchor(self, rule, name, obj):
-        """a hard anchor (public item / trait impl) must exist: fail closed"""
+    def anchor(self, rule, name, obj, private=False):
+        """a hard anchor (public item / trait impl) must exist: fail closed.  An item that is NOT part of the public API (a private
+        function, something in a private module) can be renamed or moved by a behaviour-preserving refactoring: when it is missing
+        the rules phrased over it are undecided, not violated."""
+        if private and (obj is None or obj == [] or obj is False):
+            self.undecided(rule, "anchor/" + name, "private item `%s` not found (renamed or moved?): the rules phrased over it are not decided" % name)
+            return False
         if obj is None or obj == [] or obj is False:
             self.ob(rule, "anchor/" + name, False, "coverage-floor: hard anchor `%s` not found in the fact base" % name)
             return False
         return True
 
-    def floor(self, rule, what, count, minimum):
+    def floor(self, rule, what, count, minimum, soft=False):
+        """fewer instances than confirmed by hand: the rule has gone (partly) vacuous.  `soft`: the instances are private items that a
+        refactoring may rename, merge or inline - then the shortfall is reported as undecided, not as a violation."""
         ok = count >= minimum
+        if soft and not ok:
+            self.undecided(rule, "floor/" + what, "%s: only %d instance(s) recognised on this tree (%d when the rule was written): the rule covers less than it did" % (what, count, minimum))
+            return False
         self.ob(
             rule,
             "floor/" + what,
